@@ -1,6 +1,7 @@
 import WrglModel.Driver.Util
 import WrglModel.Model.Pool
 import WrglModel.Model.PBar
+import WrglModel.Model.Pipe
 import WrglModel.Gen.Facts
 open Lean
 namespace Wrgl.Drv
@@ -39,6 +40,58 @@ def handleC16 (op : String) (input impl : Json) : Except String Json := do
       (if nb == blockRows.length then [] else ["no-block-lost-or-duplicated"])
     let agree := p.finished && mrows == rows && mblocks.length == nb
     return reply mj agree viol
+  | "ingest-history" =>
+    -- several ingests in a row on one sorter: each attempt is judged on its own - error exactly when
+    -- one of its writes was refused, otherwise the table of a single-threaded ingest of its rows -
+    -- whatever happened in the attempts before it, and each attempt is over when it returns
+    let eff ← natFld input "effectiveWorkers"
+    let cap ← natFld input "chanBuffer"
+    let atts ← arrFld input "attempts"
+    let ms ← atts.mapM (fun a => do
+      let rows ← natFld a "rows"
+      let blockRows ← asNatList (fldD a "blockRows" (Json.arr #[]))
+      let schedule ← asNatList (fldD a "schedule" (Json.arr #[]))
+      let failAt ← intFld a "failAt"
+      let nb := blockRows.length
+      -- write k of an attempt belongs to a worker's save (two writes per block) or, after the last
+      -- block, to the coordinator (table index, profile, table)
+      let fault : Option Nat := if failAt ≥ 0 && failAt.toNat < 2 * nb then some (failAt.toNat / 2) else none
+      let coordFault := failAt ≥ 0 && failAt.toNat ≥ 2 * nb && failAt.toNat < 2 * nb + 3
+      let p := (Pipe.init rows Facts.blockSize cap eff).run fault schedule
+      pure (p, coordFault, blockRows))
+    let mj := Json.mkObj [("attempts", Json.arr (ms.map (fun (p, cf, _) => Json.mkObj [
+      ("returns", Json.bool (p.mayReturn true)), ("error", Json.bool (p.outcome.isNone || cf)),
+      ("rowsCount", jNat p.rows), ("blocks", jNat p.nblk), ("atRest", Json.bool p.quiescent)])).toArray)]
+    if resClass impl == "panic" then return reply mj false ["no-panic"]
+    if resClass impl != "ok" then
+      let isHang := (fldD impl "kind" Json.null).getStr?.toOption == some "hang"
+      return reply mj false [if isHang then "always-terminates" else "unexpected-error"]
+    let outs ← arrFld (fldD impl "val" Json.null) "attempts"
+    if outs.length != ms.length then return reply mj false ["unexpected-error"]
+    let mut viol : List String := []
+    let mut agree := true
+    for ((p, cf, blockRows), o) in ms.zip outs do
+      let isErr := (fldD o "error" (Json.bool false)).getBool?.toOption.getD false
+      let late := (fldD o "lateWrites" (jNat 0)).getNat?.toOption.getD 0
+      let mErr := p.outcome.isNone || cf
+      if !(p.mayReturn true) then agree := false
+      if late > 0 then viol := viol ++ ["ingest-is-over-when-it-returns"]
+      if mErr then
+        if !isErr then viol := viol ++ ["error-in-one-worker-is-reported"]
+      else if isErr then viol := viol ++ ["unexpected-error"]
+      else
+        let unreadable := (o.getObjVal? "unreadable").toOption.isSome
+        let rows := (fldD o "rowsCount" (jNat 0)).getNat?.toOption.getD 0
+        let nb := (fldD o "blocks" (jNat 0)).getNat?.toOption.getD 0
+        let same := (fldD o "sameSum" (Json.bool false)).getBool?.toOption.getD false
+        let total := blockRows.foldl (· + ·) 0
+        viol := viol ++
+          (if unreadable then ["error-in-one-worker-is-reported"] else []) ++
+          (if same then [] else ["same-table-as-single-threaded-run"]) ++
+          (if rows == total then [] else ["no-row-lost-or-duplicated"]) ++
+          (if nb == blockRows.length then [] else ["no-block-lost-or-duplicated"])
+        if !(p.rows == rows && p.nblk == nb && p.quiescent) then agree := false
+    return reply mj agree viol.eraseDups
   | "merge" =>
     -- diff / merge pipelines under an unreadable object: must terminate, never panic; without a
     -- fault the outcome is the one-processor outcome
